@@ -1103,6 +1103,12 @@ def strict_decode_writes(ctx, res, prop):
         b0 = int(h[:2], 16) if len(h) >= 2 else 0
         if r != 'none' and b0 >> 4 == 3 and (b0 >> 1) & 3 == 0 and b0 & 8:
             r = 'none'           # "The DUP flag MUST be set to 0 for all QoS 0 messages" [MQTT-3.3.1-2]
+        if r == 'none' and b0 in (0x40, 0x50, 0x70) and h[2:] == '020000':
+            # PUBACK / PUBREC / PUBCOMP carrying identifier 0: the reference decoder refuses identifier 0 everywhere, but the standard states the
+            # non-zero rule for the packets that ALLOCATE an identifier (SUBSCRIBE, UNSUBSCRIBE, PUBLISH with QoS > 0 [MQTT-2.3.1-1]); an
+            # acknowledgement "MUST contain the same Packet Identifier" as the packet it answers [MQTT-2.3.1-6], also when a broker sent 0.
+            # Whether the identifier echoed is the one received is C06's rule, judged by its monitor.
+            r = 'ack-of-identifier-0'
         if r == 'none':
             nbad += 1
             if nbad <= 5:
